@@ -19,7 +19,7 @@ import GoaktVerif.Lemmas.C04.LockedInv
 import GoaktVerif.Lemmas.C04.RingMain
 import GoaktVerif.Lemmas.C04.RingTrace2
 import GoaktVerif.Lemmas.C04.SegTrace5
-import GoaktVerif.Lemmas.C04.IntakeTrace
+import GoaktVerif.Lemmas.C04.IntakeValues
 
 namespace GoaktVerif.C04
 open GoaktVerif.Model.C04 GoaktVerif.Spec.C04
@@ -528,9 +528,25 @@ theorem intake_conservation (k : Intake.Conf) (ct : Nat) (progs : List (List Op)
     insertedOf evs ++ c.sh.batch.drop c.sh.done ++ c.sh.stack.reverse = pushedOf evs ∧
     (k.stable = true → c.sh.seq = (insertedOf evs).length) := by
   intro c0 c evs
-  have h := tri_run (k := k) ct progs wf sched c0 [] Reach.init ⟨rfl, fun _ => rfl⟩
+  have h := tri_run (k := k) ct progs wf sched c0 [] Reach.init ⟨rfl, fun _ => rfl, List.Perm.refl _⟩
   simp only [List.nil_append] at h
   exact ⟨h.cons, h.seq⟩
+
+open IntakeInv in
+/-- EXACTLY-ONCE for the intake-based priority mailboxes, every schedule (conservation + heap permutation
+lemmas + "returned = popped"): the values returned by Dequeue (including one popped but not yet
+returned), the heap, the rest of the current batch and the stack together are a PERMUTATION of the
+accepted messages (`pushedOf`, the successful `CAS:head` in order).  With `intake_priority_order` /
+`stable_priority_then_arrival` (each pop is a minimum; arrival number = acceptance index) this is the
+full sequential-queue refinement of these mailboxes. -/
+theorem intake_exactly_once (k : Intake.Conf) (ct : Nat) (progs : List (List Op)) (wf : IntakeWF ct progs) (sched : List Nat)
+    (t : Thread Intake.PC) (ht : (runSched (initCfg (Intake.algo k) Intake.init progs) sched).threads[ct]? = some t) :
+    (deqdT t ++ (runSched (initCfg (Intake.algo k) Intake.init progs) sched).sh.heap.map Prod.fst ++
+      (runSched (initCfg (Intake.algo k) Intake.init progs) sched).sh.batch.drop
+        (runSched (initCfg (Intake.algo k) Intake.init progs) sched).sh.done ++
+      (runSched (initCfg (Intake.algo k) Intake.init progs) sched).sh.stack.reverse).Perm
+      (pushedOf (traceI (initCfg (Intake.algo k) Intake.init progs) sched)) :=
+  exactly_once (k := k) ct progs wf sched t ht
 
 /-! ### one citation point: every mailbox kind refines its documented sequential queue
 
